@@ -4,7 +4,8 @@ import k9
 import guards
 
 CLAIMS = ("R1 every cache validator is an EQUALITY test on a stamp that includes both the source file's full-resolution modification time and its length: cached_metadata and cached_reader_builder_with_schema return a cached footer only when the stored stamp equals a fresh (modified(), len()); the sidecar stamp is built from len() and modified() without a precision-reducing call (as_secs/as_millis) and compared with ==; sidecar_dict_cols hits only when the stored `.complete` stamp equals the current one; "
-          "R2 every cache insert stores the stamp that was read BEFORE the file was parsed (so a concurrent rewrite cannot be recorded under the new stamp).")
+          "R2 every cache insert stores the stamp that was read BEFORE the file was parsed (so a concurrent rewrite cannot be recorded under the new stamp); "
+          "R3 ensure_sidecar hands out a sidecar directory only when it is known to hold the current file's data: each Some(dir) return is either dominated by is_fresh(dir, src_meta) == true, or follows a successful build_sidecar whose publication step unconditionally removes the previous final directory before renaming the staging directory into place (a stale, complete directory can then not survive a rebuild).")
 NOT_DECIDED = "a replacement that preserves both mtime and length (undetectable by any stat-based validator); content-level staleness."
 
 MC = "storage::metadata_cache"
@@ -145,3 +146,36 @@ def run(F, R):
                             okd = True
     lit = any(l[0] == "s:.complete" for g in F.family(dc.path) for l in g.raw["lits"])
     R.check(okd and lit and bool(hits), "C19.R1", f"{IC}::sidecar_dict_cols:validator", "the per-directory dictionary-column cache answers without checking that the sidecar's `.complete` stamp is still the one it was computed for", dc.loc(), dict(hit_returns=len(hits), tests=detail))
+    # ---- R3: what ensure_sidecar returns
+    R.rule("C19.R3", "K3 dominance", "Some(dir) only under is_fresh == true, or after a build that unconditionally replaced the final directory")
+    es = F.fn(IC + "::ensure_sidecar")
+    bs = F.fn(IC + "::build_sidecar")
+    somes = [i for i, j, dst, rv, line in es.stmts() if dst == "0" and rv[0] == "agg" and rv[1] == "adt:std::option::Option::Some"]
+    R.floor("C19.R3", "Some(dir) returns in ensure_sidecar", len(somes), 3)
+    # publication invariant of build_sidecar
+    ren = [c for c in bs.calls() if c.name == "std::fs::rename"]
+    pub_ok, why = False, "no rename of the staging directory found"
+    if len(ren) == 1:
+        r = ren[0]
+        fin = origin(bs, r.args[1])
+        rms = [c for c in bs.calls() if c.name == "std::fs::remove_dir_all" and same_origin(bs, c.args[0], r.args[1])]
+        if not rms:
+            why = "the final directory is never removed before the rename"
+        elif not any(bs.dominates(c.bb, r.bb) for c in rms):
+            why = "the removal of the previous final directory is conditional: a stale directory that looks complete survives, the rename fails on it and the stale data is served"
+        else:
+            pub_ok, why = True, ""
+    built = [c for c in es.calls() if c.name == bs.path]
+    for n, i in enumerate(sorted(somes, key=lambda b: es.blocks[b]["l"])):
+        gs = guards.guards_of(es, i, require_err=False)
+        fresh = any(cd.startswith(IC + "::is_fresh(") and v is True for sb, cd, v in gs)
+        after_build = any(es.dominates(c.bb, i) and c.bb != i for c in built)
+        # the build's error edge must not reach this return
+        if after_build:
+            b = [c for c in built if es.dominates(c.bb, i)][0]
+            okb = any(cd.startswith("discr(") and (bs.path + "(") in cd and str(v) in ("Ok", "Continue") for sb, cd, v in gs) or "match" in " ".join(result_consumers(es, b)) or "iflet" in " ".join(result_consumers(es, b))
+        else:
+            okb = False
+        ok = fresh or (after_build and okb and pub_ok)
+        what = "a sidecar directory is handed out without a freshness test" if not (fresh or after_build) else ("after a rebuild the directory is handed out although " + (why or "the build's failure edge reaches this return"))
+        R.check(ok, "C19.R3", f"ensure_sidecar:return#{n}", what, es.loc(i), dict(fresh_guard=fresh, after_build=after_build, publication_replaces_final=pub_ok))
